@@ -330,6 +330,94 @@ def structured_pack(sh, s, d, case):
     base.close()
 
 
+def blob_stacking(sh, s, d, case):
+    """blob-capable stackings: base blobs are readable through the demo storage, new and rewritten blobs go to the
+    changes layer, the base's blob directory and data are never touched"""
+    import hashlib
+    import ZODB
+    import ZODB.MappingStorage
+    import ZODB.DemoStorage
+    import ZODB.blob
+    import transaction
+    from ZODB.blob import Blob
+    from zv import recfs, clock
+    from zv.observe import observe, first_diff
+    rnd = random.Random(s)
+    FSM = recfs.install()
+    recfs.LOG.reset()
+    recfs.LOG.enabled = False
+    clock.install(clock.FakeClock())
+    ZODB.DemoStorage.random = random.Random(s)
+    bblobs = os.path.join(d, 'baseblobs')
+    bkind = rnd.choice(['file', 'blobwrap'])
+    base = (FSM.FileStorage(os.path.join(d, 'BB.fs'), blob_dir=bblobs) if bkind == 'file'
+            else ZODB.blob.BlobStorage(bblobs, ZODB.MappingStorage.MappingStorage()))
+    db = ZODB.DB(base)
+    with db.transaction() as c:
+        c.root()['b0'] = Blob(b'base blob 0')
+        c.root()['b1'] = Blob(b'base blob 1')
+    ckind = rnd.choice(['default', 'file'])
+    changes = FSM.FileStorage(os.path.join(d, 'BC.fs'), blob_dir=os.path.join(d, 'chblobs')) if ckind == 'file' else None
+    demo = ZODB.DemoStorage.DemoStorage(base=base, changes=changes, close_base_on_close=False)
+
+    def fp():
+        out = {}
+        for root, dirs, files in os.walk(bblobs):
+            for f in files:
+                pth = os.path.join(root, f)
+                with open(pth, 'rb') as fh:
+                    out[os.path.relpath(pth, bblobs)] = hashlib.sha1(fh.read()).hexdigest()
+        return out
+    base_fp = fp()
+    base_obs = observe(base, full=False, undolog=False)
+    db2 = ZODB.DB(demo)
+    tm = transaction.TransactionManager()
+    c = db2.open(tm)
+    model = {'b0': b'base blob 0', 'b1': b'base blob 1'}
+    sh.count('blob_stacking_scenarios')
+    wit = {'base': bkind, 'changes': ckind}
+    for i in range(rnd.choice([2, 4, 6])):
+        tm.begin()
+        op = rnd.choice(['rewrite', 'append', 'new', 'abort-rewrite'])
+        if op == 'new':
+            model['n%d' % i] = b'new %d' % i
+            c.root()['n%d' % i] = Blob(model['n%d' % i])
+        else:
+            name = rnd.choice(sorted(model))
+            if op == 'append':
+                with c.root()[name].open('a') as f:
+                    f.write(b'+a%d' % i)
+                model[name] += b'+a%d' % i
+            else:
+                with c.root()[name].open('w') as f:
+                    f.write(b'rw%d' % i)
+                if op == 'rewrite':
+                    model[name] = b'rw%d' % i
+        if op == 'abort-rewrite':
+            tm.abort()
+        else:
+            tm.commit()
+        tm2 = transaction.TransactionManager()
+        c2 = db2.open(tm2)
+        for name, exp in model.items():
+            with c2.root()[name].open('r') as f:
+                got = f.read()
+            if got != exp:
+                sh.violation('c16:blob-stacking:blob-read-through-demo-differs', dict(wit, name=name, got=got[:30], expected=exp[:30], op=op), case)
+                c2.close()
+                return
+        c2.close()
+        if fp() != base_fp:
+            sh.violation('c16:blob-stacking:base-blob-directory-changed', dict(wit, op=op), case)
+            return
+    c.close()
+    df = first_diff(observe(base, full=False, undolog=False), base_obs)
+    if df:
+        sh.violation('c16:blob-stacking:base-observation-changed', dict(wit, diff=df), case)
+    db2.close()
+    base.close()
+
+
 def run_shard(params):
     logging.disable(logging.CRITICAL)
     sh = Shard(params)
@@ -342,6 +430,9 @@ def run_shard(params):
         if i % 6 == 5:
             c2 = {'seed': s, 'structured_pack': True}
             guarded(sh, 'c16', c2, lambda: structured_pack(sh, s, d, c2))
+        if i % 6 == 2:
+            c3 = {'seed': s, 'blob_stacking': True}
+            guarded(sh, 'c16', c3, lambda: blob_stacking(sh, s, sh.fresh_dir('c16b'), c3))
         r = guarded(sh, 'c16', case, lambda: run_case(sh, s, d, case))
         if r:
             sh.case(r[0], r[1])
@@ -355,6 +446,9 @@ def replay(case, scratch):
     sh = Shard({'scratch': scratch})
     if case.get('crafted') == 'undo-base-object':
         guarded(sh, 'c16', case, lambda: crafted_undo_base_object(sh, sh.fresh_dir('c16'), case))
+        return sh.violations
+    if case.get('blob_stacking'):
+        guarded(sh, 'c16', case, lambda: blob_stacking(sh, case['seed'], sh.fresh_dir('c16b'), case))
         return sh.violations
     if case.get('structured_pack'):
         guarded(sh, 'c16', case, lambda: structured_pack(sh, case['seed'], sh.fresh_dir('c16'), case))
